@@ -10,6 +10,12 @@
 #include <pthread.h>
 #include "mc.h"
 
+/* the runtime's own memory operations must not be reported to the monitor (they are --wrap'ed for the code under test) */
+void *__real_memcpy(void *, const void *, size_t); void *__real_memset(void *, int, size_t); void *__real_memmove(void *, const void *, size_t);
+#define memcpy __real_memcpy
+#define memset __real_memset
+#define memmove __real_memmove
+
 #define MAXT 8
 #define MAXALT 16
 #define MAXCHOICE 4096
@@ -47,6 +53,7 @@ typedef struct Thread {
     long nops;
     long blocked_count;            /* times found not-enabled (reset by mc_mark) */
     long barriers;
+    long long_waits;               /* condition waits entered + times blocked on a pthread rwlock (reset by mc_mark) */
     void *tls[32];
     int in_cond_wait_mutex_reacquire;
     void *cond_mutex;
